@@ -144,14 +144,37 @@ func newEnv(x *sched.X, yield bool) *env {
 }
 
 // outstanding per the statement: the send has returned and no response reached the consumer yet.
+// A message is outstanding once its send has returned OR once it has been observed among the
+// packets written to the client (from then on a client can causally answer it), until a response
+// reached its consumer.
 func (e *env) outstanding() []*msg {
 	var o []*msg
 	for _, m := range e.msgs {
-		if m.returned && !m.answered {
+		if (m.returned || e.wireID(m.tag) != 0) && !m.answered {
 			o = append(o, m)
 		}
 	}
 	return o
+}
+
+// wireID is the id under which the message tagged tag has been written to the client conn
+// (0 = not on the wire yet). This is what a client can observe.
+func (e *env) wireID(tag int) int {
+	for _, p := range e.client.packets() {
+		if pm, ok := p.(*packet.LoginPluginMessage); ok && len(pm.Data) == 2 && pm.Data[0] == 0xA0 && int(pm.Data[1]) == tag {
+			return pm.ID
+		}
+	}
+	return 0
+}
+
+// awaitWire is the causal client: it parks (sched.Yield) until it has observed message tag on
+// the wire, or until give() says the sender is finished, and returns the observed id.
+func (e *env) awaitWire(tag int, give func() bool) int {
+	for e.wireID(tag) == 0 && !give() {
+		sched.Yield()
+	}
+	return e.wireID(tag)
 }
 
 func (e *env) outstandingIDs() []int {
@@ -194,6 +217,9 @@ func (c *c13Consumer) OnMessageResponse(body []byte) error {
 // discoverID finds the id the implementation gave to message m: the key under which its consumer
 // is registered (in-package access), or the id of the response that already reached it.
 func (e *env) discoverID(m *msg) int {
+	if id := e.wireID(m.tag); id != 0 {
+		return id
+	}
 	for id, c := range e.l.outstandingResponses {
 		if cc, ok := c.(*c13Consumer); ok && cc.m == m {
 			return id
@@ -210,7 +236,7 @@ func (e *env) discoverID(m *msg) int {
 
 func (e *env) resolveIDs() {
 	for _, m := range e.msgs {
-		if m.id == 0 && m.returned {
+		if m.id == 0 && (m.returned || e.wireID(m.tag) != 0) {
 			m.id = e.discoverID(m)
 		}
 	}
@@ -540,6 +566,29 @@ func (r *relayEnv) backendMsg(op c13Op) {
 	}
 }
 
+// relayedOnWire finds the relayed message (non-empty payloads carry their index) that has been
+// written to the client under id.
+func (r *relayEnv) relayedOnWire(id int) *rmsg {
+	for _, p := range r.client.packets() {
+		if pm, ok := p.(*packet.LoginPluginMessage); ok && pm.ID == id && len(pm.Data) == 3 && pm.Data[0] == 0xC0 {
+			if i := int(pm.Data[2]) - 1; i >= 0 && i < len(r.rmsgs) {
+				return r.rmsgs[i]
+			}
+		}
+	}
+	return nil
+}
+
+// relayWireID: the client id under which the n-th (1-based) relayed message is on the wire, or 0.
+func (r *relayEnv) relayWireID(n int) int {
+	for _, p := range r.client.packets() {
+		if pm, ok := p.(*packet.LoginPluginMessage); ok && len(pm.Data) == 3 && pm.Data[0] == 0xC0 && int(pm.Data[2]) == n {
+			return pm.ID
+		}
+	}
+	return 0
+}
+
 func (r *relayEnv) routstanding() []int {
 	var ids []int
 	for _, m := range r.rmsgs {
@@ -565,6 +614,13 @@ func (r *relayEnv) clientReply(id, v int) {
 	var target *rmsg
 	for _, m := range r.rmsgs {
 		if m.returned && !m.answered && m.clientID == id {
+			target = m
+		}
+	}
+	if target == nil {
+		// not returned yet, but already observed on the wire under this id: the client's reply is
+		// causally after the relayed message, so the backend must get its answer
+		if m := r.relayedOnWire(id); m != nil && !m.answered {
 			target = m
 		}
 	}
@@ -810,6 +866,95 @@ func scenarios() []schedrun.Scenario {
 				r.rdrain()
 				r.check()
 				if n := len(r.routstanding()); n != 0 || r.nAnswered != 3 {
+					r.fail("relay-backend-answer-missing", "%d relayed messages answered, %d still outstanding after the client replied to all", r.nAnswered, n)
+				}
+				g := r.backendGot()
+				sort.Strings(g)
+				x.Outcome(strings.Join(g, ","))
+			})
+		}},
+		// ---- causal clients: the responder answers a message only after it has OBSERVED it among the
+		// packets written to the client; such a reply must reach exactly that consumer, and completion
+		// must not run while an observed message is unanswered ----
+		// direct-write path (login event already fired), reply to the new message first
+		{Name: "causal-direct-write", Quick: -1, Thorough: -1, Body: func(x *sched.X) {
+			e := newEnv(x, true)
+			e.send("plain") // #1 queued
+			e.fire()        // #1 on the wire, completion waits for it
+			done := false
+			x.Go("handler", func() { e.send("plain"); done = true }) // #2: written directly
+			x.Go("client", func() {
+				if id := e.awaitWire(2, func() bool { return done }); id != 0 {
+					e.respond(id, 1)
+				}
+				e.respond(1, 1)
+			})
+			x.AtEnd(func() {
+				e.drain()
+				e.final()
+				x.Outcome(fmt.Sprintf("inv=%s done=%d", e.invSummary(), e.completions))
+			})
+		}},
+		// direct-write path, the client answers the OLDER message once it has seen the new one:
+		// completion must wait for the new one
+		{Name: "causal-direct-write-older-first", Quick: -1, Thorough: -1, Body: func(x *sched.X) {
+			e := newEnv(x, true)
+			e.send("plain")
+			e.fire()
+			done := false
+			x.Go("handler", func() { e.send("plain"); done = true })
+			x.Go("client", func() {
+				id := e.awaitWire(2, func() bool { return done })
+				e.respond(1, 0)
+				if id != 0 {
+					e.respond(id, 2)
+				}
+			})
+			x.AtEnd(func() {
+				e.drain()
+				e.final()
+				x.Outcome(fmt.Sprintf("inv=%s done=%d", e.invSummary(), e.completions))
+			})
+		}},
+		// pre-login queued path: handlers register while the login event fires; the client answers
+		// each message as soon as it sees it
+		{Name: "causal-queued", Quick: 3, Thorough: -1, Body: func(x *sched.X) {
+			e := newEnv(x, true)
+			n := 0
+			x.Go("handler1", func() { e.send("plain"); n++ })
+			x.Go("login", func() { e.send("plain"); e.fire(); n++ })
+			x.Go("client", func() {
+				for tag := 1; tag <= 2; tag++ {
+					if id := e.awaitWire(tag, func() bool { return n == 2 }); id != 0 {
+						e.respond(id, 1)
+					}
+				}
+			})
+			x.AtEnd(func() {
+				e.drain()
+				e.final()
+				x.Outcome(fmt.Sprintf("inv=%s done=%d client=%v", e.invSummary(), e.completions, e.clientMessageIDs()))
+			})
+		}},
+		// forge relay path: the backend thread relays, the client replies to what it has seen
+		{Name: "causal-relay", Quick: -1, Thorough: -1, Body: func(x *sched.X) {
+			r := newRelayEnv(x, true)
+			done := false
+			x.Go("backend", func() { r.backendMsg(c13Op{K: "B", I: 5}); r.backendMsg(c13Op{K: "B", I: 6}); done = true })
+			x.Go("client", func() {
+				for n, v := range []int{1, 0} {
+					for r.relayWireID(n+1) == 0 && !done {
+						sched.Yield()
+					}
+					if id := r.relayWireID(n + 1); id != 0 {
+						r.clientReply(id, v)
+					}
+				}
+			})
+			x.AtEnd(func() {
+				r.rdrain()
+				r.check()
+				if n := len(r.routstanding()); n != 0 || r.nAnswered != 2 {
 					r.fail("relay-backend-answer-missing", "%d relayed messages answered, %d still outstanding after the client replied to all", r.nAnswered, n)
 				}
 				g := r.backendGot()
